@@ -23,6 +23,11 @@ env.quiet_logging()
 from proxy.core.event import EventQueue, EventDispatcher, EventSubscriber, eventNames     # noqa: E402
 
 PROPERTY = 'C18'
+# Work in progress, not registered: the first full run (quick, seed 1) took 277 s, lost a shard to the watchdog and
+# reported stress-phase differences that have not been triaged (harness ack time-outs vs. the dispatcher).  No verdict
+# on C18 is claimed until that is done; bin/mkmanifest lists the property as not claimed.
+DISABLED = ('check not finished in this round: checks/c18.py exists but its stress phase is neither bounded nor triaged '
+            '(DESIGN.md \u00a73 C18); no verdict is claimed')
 LEVEL = 'exploration'
 LEVEL_TEXT = ('Exploration with an exhaustive sub-space: every history over {subscribe, unsubscribe (also repeated / '
               'unknown ids), publish, break channel (reader closed with or without unread data; duplex and simplex '
